@@ -1,7 +1,6 @@
 from __future__ import annotations
 
 import sys
-from collections import defaultdict
 from collections.abc import Mapping
 from copy import deepcopy
 from types import MappingProxyType
@@ -61,17 +60,17 @@ class StereoCondensedReactionGraph(StereoMolGraph, CondensedReactionGraph):
     """
 
     __slots__ = ("_atom_stereo_change", "_bond_stereo_change")
-    _atom_stereo_change: defaultdict[AtomId, ChangeDict[AtomStereo]]
-    _bond_stereo_change: defaultdict[Bond, ChangeDict[BondStereo]]
+    _atom_stereo_change: dict[AtomId, ChangeDict[AtomStereo]]
+    _bond_stereo_change: dict[Bond, ChangeDict[BondStereo]]
 
     def __init__(self, mol_graph: Optional[MolGraph] = None):
         super().__init__(mol_graph)
-        self._atom_stereo_change = defaultdict(ChangeDict[AtomStereo])
-        self._bond_stereo_change = defaultdict(ChangeDict[BondStereo])
+        self._atom_stereo_change = {}
+        self._bond_stereo_change = {}
 
         if mol_graph and isinstance(mol_graph, StereoCondensedReactionGraph):
-            self._atom_stereo_change.update(mol_graph._atom_stereo_change)
-            self._bond_stereo_change.update(mol_graph._bond_stereo_change)
+            self._atom_stereo_change = deepcopy(mol_graph._atom_stereo_change)
+            self._bond_stereo_change = deepcopy(mol_graph._bond_stereo_change)
 
     def __hash__(self) -> int:
         if self.n_atoms == 0:
